@@ -595,8 +595,9 @@ class SparselyTwoDimensionallyHistogramMethods:
 
         grid = set2Dsparse(self, yminBin, ymaxBin, np.zeros((ynum, xnum)))
 
-        x_ranges = np.arange(xlow, xhigh + xbinWidth, xbinWidth)
-        y_ranges = np.arange(ylow, yhigh + ybinWidth, ybinWidth)
+        # one more edge than bins; not np.arange with a float step, whose length depends on rounding
+        x_ranges = xlow + xbinWidth * np.arange(xnum + 1)
+        y_ranges = ylow + ybinWidth * np.arange(ynum + 1)
 
         return x_ranges, y_ranges, grid
 
